@@ -8,6 +8,15 @@ CLAIMED = {
    text="Runs the real engine (patch.Parse/Apply in worker subprocesses, and the freshly built CLI) on thousands of generated (pattern, file) pairs with planted instances and token-level near-misses, and judges every output with an independent executable reference semantics (canonical go/ast trees, backtracking unifier, acceptable-output sets). Exploration is the right level: the quantifier is unbounded, what can be shown is that the property held on the K distinct pattern/site configurations that were executed.",
    note="Trusted: go/parser, go/printer, the reference model in harness/ref (triaged against the docs; disagreements logged in DESIGN.md section 8). Nested and later instances are don't-care. Patterns stay inside the generated fragment (no top-level func literals, no [...]T, no variadic spread of non-identifiers).",
    ref="5/C01"),
+ "C02": dict(cat="exploration", technique="reference-model monitor + reference-free metamorphic relation (binding leak) over generated executions",
+   text="19 templates with repeated / kind-constrained metavariables are instantiated with per-occurrence fillers in controlled relations (equal, equal modulo comments, one leaf different, parenthesised copy, deeper copy, non-identifier for an identifier metavariable, absent label) and run through the real engine; outputs are judged by the reference model. A second, reference-free monitor checks that a failing partial match placed before a site changes neither the site's rewrite nor itself.",
+   note="Trusted: go/parser, go/printer, reference model. 'Syntactically identical' = equal canonical trees with parentheses significant.", ref="5/C02"),
+ "C03": dict(cat="exploration", technique="reference-model monitor: instantiate('+', bindings of that site) vs re-parsed engine output",
+   text="'+' sides that use each metavariable 0-3 times, reordered, under higher-precedence operators and inside elided lists are applied to files with 1-8 differently bound sites; plus misfit streams (identifier->selector in name-only slots, call->non-call under go/defer: 'unchanged' required) and an aliasing stream (a later change rewrites one of two copies). Every output is compared with the reference instantiation site by site.",
+   note="Trusted: go/parser, go/printer, reference model; slot admissibility = go/ast slot typing. Replacements that expose a composite literal in an if/for/switch header are judged by C07, not here (counted as inconclusive).", ref="5/C03"),
+ "C04": dict(cat="exploration", technique="exhaustive small-scope table judged by a backtracking reference list matcher",
+   text="For 11 list kinds, every pattern word over {a, b, x, y, ...} of length<=4 with 1-3 elisions is run against every list over {a,b,c} of length 0-5 (exhaustive in that sub-space, 1.4M pairs) plus random longer lists and 'for ... {' against all loop-header shapes; the real engine's output for each batch is compared with the reference (match iff some choice of runs works; runs reproduced complete, in order, leftmost-shortest).",
+   note="Exhaustive only inside the enumerated bounds; elements are atoms; elision layouts are the two pairing situations the statement defines (context-line elisions, or one elision per side).", ref="5/C04"),
 }
 
 NOT_YET = {}
